@@ -66,6 +66,9 @@ def catalogue():
         ("ping_between_fragments", 0, B(wire.TEXT, b"a", fin=0) + B(wire.PING, b"") + B(wire.CONT, b"b")),
         ("nonminimal_16", 0, B(wire.TEXT, b"ab", form=16)),
         ("nonminimal_64", 0, B(wire.BINARY, b"ab", form=64)),
+        # payloads that look like what the handshake parser waits for
+        ("text_is_header_terminator", 0, B(wire.TEXT, b"\r\n\r\n")),
+        ("binary_terminator_pieces", 0, B(wire.BINARY, b"\n\r\n\r\n\r")),
         ("text_then_binary", 0, B(wire.TEXT, b"a") + B(wire.BINARY, b"b")),
         ("empty_text_empty_binary", 0, B(wire.TEXT, b"") + B(wire.BINARY, b"")),
         ("empty_fragments", 0, B(wire.TEXT, b"", fin=0) + B(wire.CONT, b"", fin=0) + B(wire.CONT, b"x")),
@@ -321,7 +324,8 @@ class C02(Prop):
         return held(labels, nontrivial)
 
     # ---- exhaustive: the handshake reply ---------------------------------------------
-    REPLY_TAILS = [("text", 0), ("ping_then_text", 0), ("d_compressed_text", 1)]
+    REPLY_TAILS = [("text", 0), ("ping_then_text", 0), ("d_compressed_text", 1), ("text_is_header_terminator", 0),
+                   ("binary_terminator_pieces", 0)]
 
     def reply_cases(self):
         cat = {name: (deflate, data) for name, deflate, data in get_catalogue()}
